@@ -196,6 +196,13 @@ def _calls_in_flow(fa: FA, expr, at, name):
 def _ctor_params(ck, cls_qual):
     cls = ck.repo.cls(cls_qual)
     init = ck.repo.find_method(cls, "__init__")
+    if init is None:
+        # a class whose constructor is generated from its annotated fields (@dataclass, typing.NamedTuple)
+        generated = any("dataclass" in A.norm(d) for d in cls.node.decorator_list) or any(A.norm(b).split(".")[-1] == "NamedTuple" for b in cls.node.bases)
+        fields = [st.target.id for st in cls.node.body if isinstance(st, ast.AnnAssign) and isinstance(st.target, ast.Name)
+                  and "ClassVar" not in A.norm(st.annotation)]
+        if generated and fields:
+            return fields
     ck.need(init is not None, "%s.__init__ not found" % cls_qual)
     return [p for p in init.params if p != "self"]
 
